@@ -130,6 +130,7 @@ type FuncCtx struct {
 	havocSources  []Term
 	inlineStack   []string // repository functions without a contract being executed in place
 	notes         []string
+	defs          map[string]string // named terms of this function (name -> definition)
 	pendingAlias  []pendingAlias // set by the last call whose contract has `aliases` clauses; consumed by the assignment
 	renamed       map[*types.Var]bool
 	rangeAlias    map[string]*types.Var // range_i / range_iN -> counting variable of a for loop
@@ -287,7 +288,10 @@ func (o *Obligation) queryOpts(models bool, extra []string, dropQuant bool) stri
 		}
 	}
 	for _, a := range ax {
-		b.WriteString("(assert " + a + ")\n")
+		if a.local && (fc.pkg == nil || fc.pkg.PkgPath != a.pkg) {
+			continue
+		}
+		b.WriteString("(assert " + a.text + ")\n")
 	}
 	for _, d := range fc.decls[:o.NDecl] {
 		b.WriteString(d + "\n")
@@ -382,9 +386,16 @@ func (fc *FuncCtx) merge(states []*State) *State {
 			b, okB := s.vars[k]
 			switch {
 			case okA && okB:
-				n.vars[k] = fc.compact(Term{S: ite(s.guard, b.S, a.S), T: a.T})
+				if m, ok := fc.mergeFieldwise(s.guard, b, a); ok {
+					n.vars[k] = fc.compact(m)
+				} else {
+					n.vars[k] = fc.compact(Term{S: ite(s.guard, b.S, a.S), T: a.T})
+				}
 				if a.Const != nil && b.Const != nil && *a.Const == *b.Const {
 					n.vars[k] = a
+				}
+				if a.S == b.S && a.Static == b.Static {
+					n.vars[k] = a // the same value on both paths (keeps what is statically known about it)
 				}
 			case okA:
 				n.vars[k] = a
@@ -438,7 +449,12 @@ func (fc *FuncCtx) compact(t Term) Term {
 	name := fmt.Sprintf("t_%d", fc.nfresh)
 	fc.decls = append(fc.decls, fmt.Sprintf("(declare-const %s %s)", name, fc.w.Reg.SortOf(t.T)))
 	fc.facts = append(fc.facts, "(= "+name+" "+t.S+")")
-	return Term{S: name, T: t.T, Const: t.Const}
+	if fc.defs == nil {
+		fc.defs = map[string]string{}
+	}
+	fc.defs[name] = t.S
+	fc.w.Reg.curDefs = fc.defs
+	return Term{S: name, T: t.T, Const: t.Const, Static: t.Static}
 }
 
 func (fc *FuncCtx) compactBool(s string) string {
@@ -487,4 +503,61 @@ func (o *Obligation) byteAxioms() []string {
 		}
 	}
 	return out
+}
+
+// mergeFieldwise: ite(g, b, a) for two struct values (or two non-nil pointers to structs) whose fields are known,
+// built field by field so that fields equal on both sides stay what they were (long chains of updates of single
+// fields otherwise bury every field under one ite per update).
+func (fc *FuncCtx) mergeFieldwise(g string, b, a Term) (Term, bool) {
+	if a.S == b.S || a.T == nil {
+		return Term{}, false
+	}
+	reg := fc.reg()
+	if pt, ok := a.T.Underlying().(*types.Pointer); ok {
+		if _, isStruct := pt.Elem().Underlying().(*types.Struct); !isStruct {
+			return Term{}, false
+		}
+		s := reg.SortOf(a.T)
+		pre := "(ref_" + s + " "
+		ra, rb := reg.resolve(a.S), reg.resolve(b.S)
+		if !strings.HasPrefix(ra, pre) || !strings.HasPrefix(rb, pre) {
+			return Term{}, false
+		}
+		ia := Term{S: ra[len(pre) : len(ra)-1], T: pt.Elem()}
+		ib := Term{S: rb[len(pre) : len(rb)-1], T: pt.Elem()}
+		m, ok := fc.mergeFieldwise(g, ib, ia)
+		if !ok {
+			return Term{}, false
+		}
+		return reg.ref(fc.compact(m), a.T), true
+	}
+	if _, ok := a.T.Underlying().(*types.Struct); !ok {
+		return Term{}, false
+	}
+	si := reg.StructInfo(a.T)
+	if si == nil || len(si.Fields) < 4 || len(si.Fields) > 128 {
+		return Term{}, false
+	}
+	var fs []string
+	same := 0
+	for i := range si.Fields {
+		fa, okA := reg.knownField(a.S, si.Ctor, i, len(si.Fields), 0)
+		fb, okB := reg.knownField(b.S, si.Ctor, i, len(si.Fields), 0)
+		if !okA {
+			fa = "(" + si.Fields[i].Sel + " " + a.S + ")"
+		}
+		if !okB {
+			fb = "(" + si.Fields[i].Sel + " " + b.S + ")"
+		}
+		if fa == fb {
+			fs = append(fs, fa)
+			same++
+		} else {
+			fs = append(fs, ite(g, fb, fa))
+		}
+	}
+	if same == 0 {
+		return Term{}, false
+	}
+	return Term{S: "(" + si.Ctor + " " + strings.Join(fs, " ") + ")", T: a.T}, true
 }
